@@ -544,6 +544,7 @@ def r_rid_roundtrip(model, rep):
             raise absstr.Unmodelled("table %s" % name)
         return list(v)
     results = dict((c, []) for c in RID_CLASSES)
+    unmodelled = []
     n_runs = 0
     for d in (0, 1, 2):
         short = AStr.of(*sum([[("sym", "s%d" % i)] + ([("lit", "-")] if i < d else []) for i in range(d + 1)], []))
@@ -569,7 +570,10 @@ def r_rid_roundtrip(model, rep):
             try:
                 outs = absstr.explore(env, tables, firsts, ("tuple", (res["short"], res["version"], res["type"])), watch=want0 + [rid])
             except absstr.Unmodelled as e:
-                raise AnalysisError("_parse_release_id_part: %s is not modelled by the segment-string interpreter" % e)
+                # this scenario cannot be evaluated; the others still can - a mismatch found there is a mismatch whatever happens
+                # here, and only when none is found is the whole question undecided
+                unmodelled.append(str(e))
+                continue
             cls = ("dashed" if d else "plain", "ga" if ga_ else "other")
             for vals, trail, watched in outs:
                 n_runs += 1
@@ -578,6 +582,8 @@ def r_rid_roundtrip(model, rep):
                     got = [v.show() if isinstance(v, AStr) else repr(v) for v in vals]
                     results[cls].append("%s -> short=%s version=%s type=%s%s" % (
                         rid_r.show(), got[0], got[1], got[2], (" (when %s)" % "; ".join(trail)) if trail else ""))
+    if unmodelled and not any(results[c] for c in RID_CLASSES if c != ("dashed", "ga")):
+        raise AnalysisError("_parse_release_id_part: %s is not modelled by the segment-string interpreter" % unmodelled[0])
     for cls in RID_CLASSES:
         bad = results[cls]
         rep.ob("R-RID-ROUNDTRIP", "parse_release_id:round-trip[short=%s,type=%s]" % cls, not bad, site=cx.site(f.node),
